@@ -35,6 +35,8 @@ def proto_cmd(a, obs=None):
         if "rkind" in a:
             words = {"cur": " wr%d" % a["rtag"], "old": " wr%d" % a["rtag"], "unsent": " wr%d" % a["rtag"], "nobit": " wn%d" % a["rtag"], "unknown": " wu", "short": ""}[a["rkind"]]
         return "inject %d %s%s" % (a["p"], "-" if a.get("short") else a["m"], words)
+    if k == "dial" and "mode" in a:
+        return "dial %s %d" % (a["mode"], a["op"])
     if k in ("dial", "dfail", "lclose", "dclose", "close", "probe"):
         return k
     if k == "reject":
@@ -84,7 +86,7 @@ def sig_proto(proto):
 
 
 def replay_proto(v, proto, raw, spec, cfg, rng, maxlen=30, nrandom=300, limit=None, timeout=1500, chunk=150, auto=False,
-                 sig_override=None, setup=()):
+                 sig_override=None, setup=(), by_class=False):
     exe = build_driver("drv_proto", DRV)
     sc = getattr(v, "scale", 1.0)
     if sc != 1.0:     # aggregate checks (C03, C15) replay a fraction of every protocol's walks
@@ -93,18 +95,22 @@ def replay_proto(v, proto, raw, spec, cfg, rng, maxlen=30, nrandom=300, limit=No
     g = tlc_edges(spec, cfg, timeout=timeout)
     v.cov["states"] += g["distinct"]
     v.cov["transitions"] += len(g["edges"])
-    walks, total, covered = cover_walks(g, rng, maxlen=maxlen, limit=limit)
+    if by_class:
+        # large macro-step graphs: every class of transition (the specification's AbsV forgets message and operation numbers)
+        walks, total, covered = cover_walks_fast(g, rng, maxlen=maxlen, limit=limit, by_class=True)
+    else:
+        walks, total, covered = cover_walks(g, rng, maxlen=maxlen, limit=limit)
     extra = random_walks(g, rng, nrandom, maxlen * 2)
     n = replay_walks(v, g, walks + extra, exe, "x", lambda a, o=None: proto_cmd(a), lambda ia: "", spec + ":" + cfg,
                      sig_of=sig_override or sig_proto(proto), check_fin=False, chunk=chunk,
                      prelude=("auto 1\n" if auto else "") + "proto %s %s" % (proto, raw if isinstance(raw, str) else (1 if raw else 0)) + "".join("\n!" + x for x in setup))
     log("%s: %d/%d edges covered by %d walks (+%d random), %d validated" % (spec, covered, total, len(walks), len(extra), n))
-    v.cov.setdefault("edge_cover", {})[spec + ":" + cfg] = dict(edges=total, covered=covered, walks=len(walks),
+    v.cov.setdefault("edge_cover", {})[spec + ":" + cfg + ("@" + proto if proto == "respondent" else "")] = dict(edges=total, covered=covered, walks=len(walks), by_class=by_class,
                                                                random_walks=len(extra), validated=n, states=g["nstates"])
     return n, total, covered
 
 
-def replay_sim(v, proto, raw, spec, cfg, nsim, depth, auto=False, timeout=1500, chunk=150, setup=(), sig_override=None):
+def replay_sim(v, proto, raw, spec, cfg, nsim, depth, auto=False, timeout=1500, chunk=150, setup=(), sig_override=None, drv_env=None):
     """Random behaviours generated by TLC -simulate (for graphs too large to export completely)."""
     exe = build_driver("drv_proto", DRV)
     nsim = max(100, int(nsim * getattr(v, "scale", 1.0)))
@@ -113,7 +119,7 @@ def replay_sim(v, proto, raw, spec, cfg, nsim, depth, auto=False, timeout=1500, 
     v.cov["states"] += g["nstates"]
     walks = [w for w in g["walks"] if w]
     n = replay_walks(v, g, walks, exe, "x", lambda a, o=None: proto_cmd(a), lambda ia: "", spec + ":" + cfg,
-                     sig_of=sig_override or sig_proto(proto), check_fin=False, chunk=chunk, linear=True,
+                     sig_of=sig_override or sig_proto(proto), check_fin=False, chunk=chunk, linear=True, drv_env=drv_env,
                      prelude=("auto 1\n" if auto else "") + "proto %s %s" % (proto, raw if isinstance(raw, str) else (1 if raw else 0)) + "".join("\n!" + x for x in setup))
     log("%s: %d simulated behaviours (depth %d), %d validated" % (spec, len(walks), depth, n))
     v.cov.setdefault("edge_cover", {})[spec + ":" + cfg + ("@" + raw if isinstance(raw, str) else "") + ("@" + proto if proto == "respondent" else "")] = dict(edges=len(g["edges"]), covered=len(g["edges"]), walks=len(walks),
